@@ -10,8 +10,10 @@ Correspondence: `fs.opener.parse.parse_fs_url`, `fs._ftp_parse.parse/parse_line/
     a second alphabet with hex digits / `&` / `+` / line feed, random Unicode strings, and URLs
     built from random part tuples by the model's own builder (round trip on the real parser);
   * LIST / MLSD / FEAT lines generated from the grammars (every permission string, both year
-    forms, 12/24 h, names with spaces / Unicode / `->`), mutated and truncated lines, random
-    latin-1 garbage, huge numbers.
+    forms, 12/24 h, names with spaces / Unicode / `->`; MLSD / MLST entries `facts SP pathname`
+    whose names contain `;`, `=`, leading / trailing blanks, CR / LF, entries without facts,
+    without a space, with a facts part that does not end in `;`), mutated and truncated lines,
+    random latin-1 garbage, huge numbers.
 
 Oracle (the property itself, on the real code): (a) totality — `parse_fs_url` raises nothing but
 ParseError, the FTP parsers raise nothing; (b) faithfulness — a URL / line generated from parts
@@ -760,7 +762,9 @@ MLSD_TIMES = ["20200101120000", "20200229235959", "20200101120000.123", "2020", 
               "20200100000000", "20200132256199", "2020010112000", "202001011200", "99991231235959", "10000101000000", " 2020101010101", "2020 1 1 1 1 1 ",
               "+2020101010101", "2_20010101010", "20200101-1-1-1", "abcd0101000000", "2020\xb20101000000", "", "19700101000000", "00010101000000", "2020+1+1+1+1+1",
               "\xa0\xa0\xa0\xa001010000", "20200230000000"]
-MLSD_NAMES = ["name", " name", "dir/", "a/b", ".", "..", "", "a b", "日本", "/", "//", "x/ ", " . ", "a/..", "\xe9", "n\xa0"]
+MLSD_NAMES = ["name", " name", "a b", "a; b=c", "dir/", "a/b", ".", "..", "", "日本", "/", "//", "x/ ", " . ", "a/..", "\xe9", "n\xa0",
+              "a;b", "k=v", ";", "=", " ;", "; ", "trail ", "  both  ", "type=dir;", "type=dir; x", "a\rb", "a\n", "\r", "tab\t", "\tx", ". ", " ..",
+              "x;", "x; y", "a=b; c=d; e", "./", "../", "a/ b", " /"]
 
 
 def mlsd_line(rng, good=False):
@@ -778,13 +782,23 @@ def mlsd_line(rng, good=False):
         elif kl in ("modify", "create"):
             v = rng.choice(MLSD_TIMES[:3] if good else MLSD_TIMES)
         else:
-            v = rng.choice(["x", "", "el", "a=b", "0755", " v "])
-        facts.append(k + "=" + v)
+            v = rng.choice(["x", "", "el", "a=b", "0755", " v ", "a b", "\tv", "a;b"])
+        # a fact is `key=value`; now and then a piece without '=' (ignored by the parser)
+        facts.append(k + "=" + v if good or rng.random() < 0.95 else rng.choice([k, v, "x", " "]))
     name = rng.choice(MLSD_NAMES[:4] if good else MLSD_NAMES)
-    tail = rng.choice(["; ", ";", " ; "]) if facts else ""
-    if rng.random() < 0.1:
-        return ";".join(facts)  # no name at all
-    return rng.choice(["", "", " "]) + ";".join(facts) + tail + name + rng.choice(["", "", "\r", " "])
+    # `facts; SP name` is the grammar; the other tails give a line without any space (`;name`), a facts
+    # part that does not end with ';' (` ; name`, ` name`) and a name that starts with blanks (`;  name`)
+    tail = rng.choice(["; ", "; ", "; ", ";", " ; ", " ", ";  ", ";\t"]) if facts else rng.choice(["", "", " "])
+    if good:
+        tail = "; " if facts else ""
+    r = rng.random()
+    if r < 0.06:
+        return ";".join(facts)  # no name, no terminating ';'
+    if r < 0.1:
+        return ";".join(facts) + ";"  # no name and no space at all
+    # MLSD form, or the MLST reply form (one leading space); line terminators are the caller's, but a
+    # server's CR / LF may be left on the line
+    return rng.choice(["", "", " ", "  "]) + ";".join(facts) + tail + name + rng.choice(["", "", "", "\r", " ", "\r\n", "\n", " \r\n", "\n\n"])
 
 
 FEAT_LINES = [" MDTM", " MLST type*;size*;modify*;", " UTF8", " REST STREAM", " SIZE", "  two spaces", " ", "", "MLSD", " MLST other", "\tTVFS",
@@ -803,7 +817,7 @@ def check_classes(eng, tier):
     """the model's character tables vs Python, on latin-1 and the generator pools (must be exact);
     the thorough tier also reports how much of the rest of Unicode the tables cover."""
     rep = eng.rep
-    chars = [chr(c) for c in range(256)] + sorted(set(FTP_POOL + POOL_CHARS + "".join(NAMES) + "".join(MLSD_NAMES)) - {chr(c) for c in range(256)})
+    chars = [chr(c) for c in range(256)] + sorted(set(FTP_POOL + POOL_CHARS + "".join(NAMES) + "".join(MLSD_NAMES) + "".join(FAITHFUL_MLSD_NAMES)) - {chr(c) for c in range(256)})
     eng.check([("cls", ch) for ch in chars], "character-classes")
     lows = [ch for ch in chars]
     eng.check([("lower", ch) for ch in lows], "str.lower")
@@ -887,7 +901,12 @@ def run_ftp(eng, tier, rng, deep):
     # --- MLSD
     ml = [mlsd_line(rng, good=True) for _ in range(3000 if q else 60000)] + [mlsd_line(rng) for _ in range(12000 if q else 250000)]
     ml += [mutate(rng, rng.choice(ml)) for _ in range(4000 if q else 80000)] + [garbage(rng) for _ in range(3000 if q else 60000)]
-    ml += ["size=" + "9" * 4300 + "; f", "size=" + "9" * 4301 + "; f", "sizd=12;type=dir; d", "Type=cdir;Modify=20200101000000; .", "type=pdir; ..", "x", ""]
+    ml += ["size=" + "9" * 4300 + "; f", "size=" + "9" * 4301 + "; f", "sizd=12;type=dir; d", "Type=cdir;Modify=20200101000000; .", "type=pdir; ..", "x", "",
+           "type=file;size=3; a; b=c", "type=dir;  x \r\n", " type=file; mlst form", "  two leading blanks", " name only", "name only", "a; b", " a; b", " k=v; b",
+           "type=dir;x=a b; n", "type=dir;x=a; b; n", "x=a;b;type=dir; n", "\tK=\tv\t;Size=1;size=2; n", "type=file;n", "type=file ; n", "type=file", "type=file;",
+           " ", "  ", ";", "; ", " ;", "; ;", "=", "= ", " =", "=; =", "\r\n", " \r\n", "\n ", "type=dir; /\r\n", "type=dir; a/\n/"]
+    ml += [f + "; " + n + e for f in ("type=file", "Type=dir;size=1", "") for n in MLSD_NAMES for e in ("", "\r\n")]
+    ml += [lead + n + e for lead in ("", " ", "  ") for n in MLSD_NAMES for e in ("", "\r\n")]
     ml = list(dict.fromkeys(ml))
     rep.extra["mlsd_lines"] = len(ml)
     for l in ml:
@@ -898,6 +917,7 @@ def run_ftp(eng, tier, rng, deep):
     okl = [l for l in ml if not impl_mlsd([l]).startswith("err")]
     eng.check([("mlsd", [rng.choice(okl) for _ in range(rng.randint(0, 5))]) for _ in range(2000 if q else 30000)], "MLSD-listings")
     faithful_mlsd(eng, rng, 2000 if q else 40000)
+    mlsd_excluded_points(eng)
     # --- FEAT
     ft = list(dict.fromkeys([feat_text(rng) for _ in range(6000 if q else 100000)] + [garbage(rng) for _ in range(1000 if q else 20000)]))
     for t in ft:
@@ -1032,10 +1052,34 @@ def oracle_garbage_skipped(eng, lists):
                           "parse(lines) is not the parse_line results of the non-blank lines", found_input=True, signature="C20/parse/garbage-skipped")
 
 
+# names an MLSD line can state (WFName + NoEol of FsModel/FtpParse.lean, written independently): anything
+# but "", names containing "/", "." and "..", and names ending with CR / LF (the line terminator)
+FAITHFUL_MLSD_NAMES = ["name", "a b", "日本", "x.y", "\xe9", "a;b", "k=v", "a; b=c", " lead", "trail ", "  both  ", ";", "=", " ", "  ", "type=dir;",
+                       "type=dir; x", "size=7; modify=19990101000000; n", "a\rb", "a\nb ", "tab\t", "\tx", "n\xa0", "\xa0", ". ", " .", ".. ", "...", "X.Y",
+                       "MiXeD CaSe;=", "\\", "a\\b", "*?[]", "\U0001f600 ;", "　x　", "a=b; c=d; e", "-> x", "x;", "x; y"]
+
+
+def name_without_facts_part(name):
+    """`not sep or (facts_text and not facts_text.endswith(';'))` of a text, written from RFC 3659's
+    `entry = [ facts ] SP pathname`: can ` name` (no facts) be told from `facts SP pathname`?"""
+    if " " not in name:
+        return True
+    head = name.split(" ")[0]
+    return head != "" and not head.endswith(";")
+
+
 def faithful_mlsd(eng, rng, n):
+    """render an MLSD / MLST line from chosen values and demand exactly those values back"""
     cases, expect = [], []
-    for _ in range(n):
-        name = rng.choice(["name", "a b", "日本", "x.y", "\xe9"])
+    for i in range(n):
+        name = FAITHFUL_MLSD_NAMES[i % len(FAITHFUL_MLSD_NAMES)] if i < 4 * len(FAITHFUL_MLSD_NAMES) else rng.choice(FAITHFUL_MLSD_NAMES)
+        eol = rng.choice(["", "", "\r\n", "\n", "\r", "\n\r\n"])
+        lead = rng.choice(["", "", " "])  # MLSD form / MLST reply form
+        if rng.random() < 0.08 and name_without_facts_part(name):
+            # an entry without facts: `SP name` (or the bare name): a file of size 0
+            cases.append(("mlsd", [rng.choice([" ", ""]) + name + eol]))
+            expect.append("ok 1 " + " ".join(["M", hx(name), "0", alist([]), "0", "~", "~"]))
+            continue
         ty = rng.choice(["dir", "file", None, "cdir", "pdir", "OS.unix=slink:/foo"])
         size = rng.choice([None, 0, 123, 10 ** 15])
         sizd = rng.choice([None, 7])
@@ -1053,9 +1097,11 @@ def faithful_mlsd(eng, rng, n):
             facts.append((rng.choice(["modify", "Modify"]), stamp + rng.choice(["", ".123"])))
         if has_c:
             facts.append(("create", stamp))
+        if rng.random() < 0.3:
+            facts.append((rng.choice(["media-type", "UNIX.mode", "\xc9"]), rng.choice(["a=b", "0755", "", "==", "\xe9"])))
         facts.append(("unique", "801g4804045"))
         rng.shuffle(facts)
-        line = ";".join("%s=%s" % kv for kv in facts) + "; " + name
+        line = lead + "".join("%s=%s;" % kv for kv in facts) + " " + name + eol
         if ty not in ("dir", "file", None):
             cases.append(("mlsd", [line]))
             expect.append("ok 0")
@@ -1067,7 +1113,45 @@ def faithful_mlsd(eng, rng, n):
         cases.append(("mlsd", [line]))
         expect.append(want)
     eng.rep.sample({"mlsd": cases[0][1][0], "parsed": impl_mlsd(cases[0][1])})
+    for c in cases:
+        eng.rep.nontrivial("mlsd-parts", c[1][0])
     eng.check(cases, "MLSD-from-parts", expect)
+
+
+MLSD_EXCLUDED_POINTS = [
+    # (hypothesis of mlsd_roundtrip / mlsd_nofacts_roundtrip that is violated, line, the name the line
+    # "states") — the Lean file has a `…_counterexample` theorem for each; the real parser must agree with
+    # the model and must NOT list the entry under the stated name
+    ("name contains '/'", "type=file; a/b", "a/b"),
+    ("name ends with '/'", "type=dir; d/", "d/"),
+    ("name is '/'", "type=dir; /", "/"),
+    ("empty name", "type=file; ", ""),
+    ("name is '.'", "type=dir; .", "."),
+    ("name is '..'", "type=dir; ..", ".."),
+    ("name ends with CR", "type=file; a\r", "a\r"),
+    ("name ends with LF CR LF", "type=file; a\n\r\n", "a\n\r\n"),
+    ("space inside a fact value", "type=dir;x=a b; n", "n"),
+    ("space between facts", "type=dir;x=a; b; n", "n"),
+    ("no facts and the name starts with a blank", "  x", " x"),
+    ("no facts and the name reads as 'facts SP name'", " a; b", "a; b"),
+]
+
+
+def mlsd_excluded_points(eng):
+    rep = eng.rep
+    out, cases = [], []
+    for why, line, stated in MLSD_EXCLUDED_POINTS:
+        got = impl_mlsd([line])
+        toks = got.split(" ")
+        listed = vlib.unhx(toks[3]) if got.startswith("ok 1 M ") else None
+        cases.append(("mlsd", [line]))
+        out.append({"excluded_by": why, "line": line, "stated_name": stated, "real_parser_lists": listed, "real_parser": got})
+        if listed == stated and len(rep.violations) < MAXVIOL:
+            rep.violation({"kind": "mlsd", "arg": [line]},
+                          "hypothesis of mlsd_roundtrip (%s) is not needed on the real parser: the model is too strict here" % why,
+                          found_input=False, signature="C20/mlsd/name-hypothesis/" + why)
+    eng.check(cases, "MLSD-excluded-points")
+    rep.extra["mlsd_excluded_points"] = out
 
 
 def faithful_feat(eng, rng, n):
@@ -1099,8 +1183,9 @@ def run(rep, tier, seed, deep=False):
         "length <= 6 over 'a:/@!?%=' (thorough: + every 5th of length 7), all short strings over two richer alphabets, random "
         "unicode; unquote/quote/url_quote on exhaustive and random (in)valid UTF-8 escapes; URLs built from random part tuples "
         "must parse back to the parts; LIST lines from the grammar (all 4096 permission strings x suffix, both date forms, "
-        "12/24h), single/double mutations, truncations, latin-1 garbage, 4300/4301-digit sizes; MLSD lines, fact tables, "
-        "FEAT replies likewise; int(), str.strip/lower/splitlines, character classes, calendar arithmetic directly. "
+        "12/24h), single/double mutations, truncations, latin-1 garbage, 4300/4301-digit sizes; MLSD / MLST lines "
+        "('facts SP pathname': names with ';', '=', outer blanks, CR/LF, lines without facts / without a space / with a facts part "
+        "not ending in ';', every pool name x with/without facts x line terminator), fact tables, FEAT replies likewise; int(), str.strip/lower/splitlines, character classes, calendar arithmetic directly. "
         "evaluations = single parser calls compared; programs = inputs; distinct_nontrivial = distinct URL/LIST/MLSD/FEAT inputs "
         "containing '://' resp. generated from a grammar or mutated"
     )
